@@ -8,6 +8,14 @@ Part T (trees):   E3 over configurations x E1 over delivery order.  Every unlabe
                   (bv.refs.fwdref): who is handed the packet above the network layer (exactly once, nobody else),
                   which source address is shown, a reply to exactly that address reaches the originator and only
                   it; causal wire rules through an independent NPCI parser.
+Part A (router with an application): one router of the tree also carries an application -- it is a router and a station
+                  of its home network at the MAC of its home port: it is addressed, it receives that network's broadcasts
+                  and the global ones (handed up *and* forwarded), it originates and answers like any other station.
+Part L (late routers): the first request is handed down while no router is attached (the path query goes unanswered, the
+                  packet waits); then all routers come up and announce themselves with the library's own code
+                  (NetworkServiceElement.startup(), i_am_router_to_network(), or answers to a Who-Is-Router-To-Network
+                  without a network number: lists of several networks from routers with 3+ ports); when that has come
+                  to rest the same request is handed down again.  Both must arrive, exactly once each.
 Part P (pairs):   two requests handed down back to back (same or different sources) on the small trees, so that
                   packets wait together for one path and discoveries run into each other.
 Part H (hop count): stations' LAN ports emit crafted NPDUs with initial hop count 0..3.
@@ -15,6 +23,7 @@ Part R (cycles):  rings of 3 and 4 networks (with and without a tail network, so
                   until its hop count is used up): quiescence inside the frame bound, hop count lowered by one per
                   router, nothing forwarded at 0.
 """
+import os
 import time
 
 import bv  # noqa: F401
@@ -28,8 +37,9 @@ PROPERTY = "C06"
 LEVEL = "model_checking"
 BUDGET = {"quick": 90.0, "thorough": 1500.0}
 RULE = ("configurations: every unlabeled tree of N networks joined by routers with 2..4 ports (AHU-canonical enumeration), "
-        "every vector of stations per network up to tree automorphism, table mode, population mode (who knows its network "
-        "number), reply timing; inputs: every (source station, destination) with destination in {each other station in "
+        "every vector of stations per network up to tree automorphism, optionally one (router, home port) up to automorphism "
+        "carrying an application, table mode (including routers that come up after the first request and announce lists of "
+        "several networks), population mode (who knows its network number), reply timing; inputs: every (source station, destination) with destination in {each other station in "
         "local and/or net:mac form, an unused MAC of every network, local broadcast, remote broadcast to every network, "
         "to a network that does not exist, global broadcast}, and on the small trees every ordered pair of routed requests; "
         "histories: every order in which the LANs deliver their oldest frame that departs from global FIFO at most d times "
@@ -39,8 +49,20 @@ RULE = ("configurations: every unlabeled tree of N networks joined by routers wi
         "delivery.")
 ASSUMPTIONS = [
     "single thread; virtual clock; the vlan LANs deliver only what the explorer releases; one LAN never reorders its own frames",
-    "routers have no application of their own; every recipient of a request answers it (at once, or after the request has "
-    "come to rest) to exactly the source address it was shown",
+    "every recipient of a request answers it (at once, or after the request has come to rest) to exactly the source address "
+    "it was shown",
+    "at most one router of a topology carries an application (parts P, H, R: none); its application is a station of the "
+    "network of its home port (bound last, so that it is the NSAP's local adapter), at that port's MAC, and knows its network "
+    "number; all ports of a router are bound with an address; a failure whose originator is a router's application carries "
+    "the signature prefix 'router-app-originates:' (one known finding of the tree as it stands is keyed on it, see "
+    "known_findings.json); what such an application is *handed* (as addressee, as station of a broadcast's target network) and "
+    "what the router forwards meanwhile carries the ordinary signatures",
+    "late routers: all routers come up together after the first wave of traffic has come to rest, the order in which their "
+    "announcements are delivered is the explorer's; a packet that waits for a path has to be sent on when an "
+    "I-Am-Router-To-Network naming its network is heard, whether that is the answer to the node's own query or an "
+    "announcement; a global broadcast sent while no router is attached is a broadcast on the sender's network; with "
+    "'lask' (Who-Is-Router-To-Network without a network number, answered with the directly connected networks only) "
+    "delivery is required for networks at most one router away and permitted beyond",
     "a station that does not know its own network number addresses its own network in local form only (DESIGN.md scope decision)",
     "warm tables are what the real startup announcements teach (learned once per configuration through the real handlers, "
     "checked equal, then written by the same calls); 'rwarm' empties the stations' tables afterwards, 'rcold' the routers' "
@@ -52,10 +74,17 @@ ASSUMPTIONS = [
 ]
 BOUNDS = {
     "quick": "trees of 2..4 networks, 1..2 stations per network, tables cold/warm/rwarm/rcold, all stations knowing or not "
-             "knowing their network number, immediate replies, d<=1; pairs on trees of 2..3 networks with one station each; "
+             "knowing their network number, immediate replies, d<=1; a router with an application at every (router, home port) "
+             "up to symmetry on trees of 2..3 networks with at most one network of 2 stations and of 4 networks with one station "
+             "each, tables warm/cold/rcold, d<=1; late routers (startup / i_am_router_to_network / Who-Is-Router without number) on "
+             "the same populations, d<=1 (i_am_router_to_network at 4 networks: d=0); "
+             "pairs on trees of 2..3 networks with one station each; "
              "crafted hop counts 0..3 on the 4-network shapes; rings of 3 and 4 (+tail), d<=1 (d=0 where a broadcast circles)",
     "thorough": "trees of 2..5 networks (d<=2 up to 4 networks, d<=1 at 5 networks with at most 7 stations), one network with 3 "
-                "stations up to 4 networks, mixed and address-less populations (d<=1), immediate and late replies; pairs on "
+                "stations up to 4 networks, mixed and address-less populations (d<=1), immediate and late replies; a router with an "
+                "application on all trees of 2..4 networks with 1..2 stations per network, tables cold/warm/rwarm/rcold (d<=2 with one "
+                "station each, else d<=1); late routers on all trees of 2..4 networks with 1..2 stations per network (d<=1, d<=2 up to "
+                "3 networks with one station each); pairs on "
                 "trees of 2..3 networks (d<=2 with one station each) and the 4-network shapes with one station each; crafted "
                 "hop counts 0..3 on all shapes; rings of 3 and 4 (+tail) d<=2 (d<=1 where a broadcast circles)",
 }
@@ -64,6 +93,13 @@ ABSENT_NET = 60001
 REPLY_ALLOWANCE = 100       # frames of the (at most one per station) replies, on top of the bound for the packet itself
 TAIL = bytes([0x00, 0xFF, 0x55, 0x10, 0x08, 0x01, 0x20, 0xAA])       # octets that look like headers on purpose
 CODES = {"u": 1, "ua": 2, "lb": 3, "rb": 4, "gb": 5, "xn": 6}
+
+ROUTER_APP = "router-app-originates:"      # signature prefix: the originator of the failing packet is a router's own application
+# Requests and replies that a router's own application originates are enumerated and evaluated like everybody else's.
+# On the tree as it stands they fail for one reason (netservice.py: a packet of the local application that leaves through
+# an adapter other than the local one carries no SADR, and a directly connected network on such an adapter is looked for
+# through Who-Is-Router), which is listed in known_findings.json under this prefix.
+JUDGE_ROUTER_APP_ORIGIN = True
 
 REQ_APDU_HDR = bytes([0x10, 8])
 RPL_APDU_HDR = bytes([0x10, 0])
@@ -79,15 +115,16 @@ def reply_of(rcpt, payload):
 
 # ----------------------------------------------------------------------------- enumeration
 
-def knows(know, k):
-    return know_of(know, k) == "net"
+def knows(ref, know, k):
+    """Does station k know its own network number?  (A router's application always does: routers are configured.)"""
+    return k >= ref.n_plain or know_of(know, k) == "net"
 
 
 def tree_scenarios(ref, know, src):
     """Every destination for source station src."""
     out = []
     sn = ref.stations[src][0]
-    kn = knows(know, src)
+    kn = knows(ref, know, src)
     for r in range(len(ref.stations)):
         if r == src:
             continue
@@ -159,6 +196,37 @@ def plan(tier, seed):
             if n <= 4 and not big:
                 for src in range(sum(v)):
                     items.append(("tree", topo, "nwarm", "U", "now", 1, src))
+    # A: one router of the tree carries an application (it is a router and a station of its home network)
+    for (n, routers) in shapes:
+        if n > 4:
+            continue
+        for v in F.station_vectors(n, routers):
+            if quick and sum(v) > (n + 1 if n <= 3 else n):
+                continue
+            for (j, h) in F.app_placements(n, routers, v):
+                topo = F.concrete(n, routers, v, seed, F.shape_label(n, routers, v) + ":app%d.%d" % (j, h), apps={j: h})
+                for cache in (("warm", "cold", "rcold") if quick else caches):
+                    for know in ("K", "U"):
+                        for src in range(sum(v) + 1):
+                            items.append(("tree", topo, cache, know, "now", 1 if (quick or sum(v) > n) else 2, src))
+    # L: the routers come up after the first request was handed down
+    for (n, routers) in shapes:
+        if n > 4:
+            continue
+        for v in F.station_vectors(n, routers):
+            if quick and sum(v) > (n + 1 if n <= 3 else n):
+                continue
+            topo = F.concrete(n, routers, v, seed, F.shape_label(n, routers, v))
+            for cache in ("late", "lcall", "lask"):
+                if quick and cache == "lcall" and n == 4:
+                    d = 0       # the same frames as 'late' come from another entry point of the library
+                elif not quick and n <= 3 and sum(v) == n:
+                    d = 2
+                else:
+                    d = 1
+                for know in ("K", "U"):
+                    for src in range(sum(v)):
+                        items.append(("tree", topo, cache, know, "now", d, src))
     # P
     for (n, routers) in shapes:
         if n > (3 if quick else 4):
@@ -192,6 +260,8 @@ def plan(tier, seed):
                 topo = F.ring(n, v, seed, tail)
                 for src in range(len(topo["stations"])):
                     items.append(("ring", topo, n, 1 if quick else 2, src))
+    # simplest first across all parts (stable): when a loaded machine hits the deadline the largest topologies are cut
+    items.sort(key=lambda it: (len(it[1]["nets"]), len(it[1]["stations"])))
     return items
 
 
@@ -211,12 +281,13 @@ def _show(f):
             "netmsg": n.get("netmsg"), "apdu": f["apdu"]}
 
 
-def wire_rules(sysm, ref, frames, problems, loop_free=True):
+def wire_rules(sysm, ref, frames, problems, loop_free=True, originated=None):
     """Causal rules on every application-layer frame (requests and replies alike): a router emits such a frame only
     as the forwarded copy of a frame that was delivered to it -- normally the very frame whose delivery made it emit,
     otherwise (a router may hold a packet while it looks for the path) an earlier one with the same octets --, onto
     another LAN, only if that frame carried a DNET and a hop count above 0, and with the hop count lowered by exactly
-    one (or without DNET on the final leg).  -> (frames forwarded, of those released after having been held)"""
+    one (or without DNET on the final leg), carrying the same octets.  originated: {router: octets its own application
+    handed down} -- those frames are not forwarded copies.  -> (frames forwarded, of those released after having been held)"""
     by_serial = {f["serial"]: f for f in frames}
     position = {serial: i for i, serial in enumerate(sysm.order)}
     forwarded = held = 0
@@ -232,6 +303,8 @@ def wire_rules(sysm, ref, frames, problems, loop_free=True):
             if par is not None and par["apdu"] == c["apdu"]:
                 problems.append(("wire:station-re-emitted-a-packet-it-received", {"frame": _show(c), "cause": _show(par)}))
             continue
+        if originated and c["apdu"] in originated.get(own[1], ()):
+            continue
         forwarded += 1
         if par is not None and par["apdu"] == c["apdu"]:
             cands = [par]
@@ -243,7 +316,14 @@ def wire_rules(sysm, ref, frames, problems, loop_free=True):
                      and f["net"] in ports and f["dst"] in ("*", str(ports[f["net"]]))
                      and ref.owner.get((f["net"], _mac(f["src"]))) != own]
             if not cands:
-                problems.append(("wire:router-emitted-a-packet-it-had-not-received", {"frame": _show(c), "cause": _show(par) if par else None}))
+                # the delivery that made the router emit was itself a packet for forwarding: the copy is not the original
+                altered = (par is not None and par["apdu"] is not None and par["n"].get("dnet") is not None
+                           and par["net"] in ports and par["net"] != c["net"] and par["dst"] in ("*", str(ports[par["net"]])))
+                if altered:
+                    how = "emptied" if not c["apdu"] else ("truncated" if par["apdu"].startswith(c["apdu"]) else "altered")
+                    problems.append(("wire:forwarded-copy-octets-%s" % how, {"frame": _show(c), "cause": _show(par)}))
+                else:
+                    problems.append(("wire:router-emitted-a-packet-it-had-not-received", {"frame": _show(c), "cause": _show(par) if par else None}))
                 continue
             held += 1
         verdicts = [_forward_problems(c, f, loop_free, sysm) for f in cands]
@@ -274,10 +354,37 @@ def _forward_problems(c, par, loop_free, sysm):
     return out
 
 
-def loss_hint(sysm, frames, apdu, target_nets):
+def _iam_router_nets(f):
+    """Network numbers listed by an I-Am-Router-To-Network frame (clause 6.4.2), [] for anything else."""
+    if f["n"].get("netmsg") != 1:
+        return []
+    p = f["n"]["payload"]
+    return [(p[i] << 8) | p[i + 1] for i in range(0, len(p) - 1, 2)]
+
+
+def _released_later(f, frames, apdu, ref):
+    """A router that received frame f put the same octets on another LAN at some later time (it had held the packet)."""
+    for c in frames:
+        if c["apdu"] != apdu or c["serial"] <= f["serial"] or c["net"] == f["net"]:
+            continue
+        own = ref.owner.get((c["net"], _mac(c["src"])))
+        if own is not None and own[0] == "R":
+            ports = dict(ref.routers[own[1]])
+            if f["net"] in ports and f["dst"] in ("*", str(ports[f["net"]])):
+                return True
+    return False
+
+
+def loss_hint(sysm, frames, apdu, target_nets, ref=None, origin=None, known=None):
     """Where a packet that should have been handed up was lost (root-cause part of the signature)."""
     carriers = [f for f in frames if f["apdu"] == apdu]
     if not carriers:
+        if ref is not None and origin is not None and len(target_nets) == 1:
+            # the originator kept it: did an I-Am-Router-To-Network naming the network reach its LAN meanwhile?
+            delivered = set(sysm.order)
+            on = ref.stations[origin][0]
+            if any(f["net"] == on and f["serial"] in delivered and ref.nets[target_nets[0]] in _iam_router_nets(f) for f in frames):
+                return "never-put-on-the-wire-although-a-router-to-the-network-was-heard"
         return "never-put-on-the-wire"
     hints = set()
     delivered = set(sysm.order)
@@ -285,8 +392,12 @@ def loss_hint(sysm, frames, apdu, target_nets):
         kids = [c for c in frames if c["parent"] == f["serial"]]
         if any(c["apdu"] == apdu for c in kids):
             continue
+        if ref is not None and _released_later(f, frames, apdu, ref):
+            continue
         if f["serial"] not in delivered:
             hints.add("frame-still-in-flight")
+        elif known is not None and any(c["apdu"] is not None and c["apdu"] not in known and c["net"] != f["net"] for c in kids):
+            hints.add("forwarded-with-other-octets")
         elif f["net"] in target_nets:
             hints.add("on-the-final-lan-but-not-handed-up")
         elif any(c["n"].get("netmsg") == 0 for c in kids):
@@ -328,7 +439,26 @@ def source_problem(shown, accept):
     return "kind-%s" % shown[0]
 
 
-def judge(sysm, ref, part, sends, frame_bound=None):
+def expected(ref, part, cache, wave, src, dest, hop):
+    """-> (exp, must, may): who the statement addresses, who has to be handed the packet, who may be."""
+    exp = ref.recipients(src, dest)
+    if part == "craft":
+        reach = {r: ref.hop_reach(src, r, hop) for r in exp}
+        return exp, [r for r in exp if reach[r] == "yes"], [r for r in exp if reach[r] != "no"]
+    if cache in NetSystem.LATE:
+        sn = ref.stations[src][0]
+        if wave == 0 and dest[0] == "gb":
+            # no router was there when the broadcast went out: it is a broadcast on the sender's network
+            exp = [r for r in exp if ref.stations[r][0] == sn]
+        elif cache == "lask":
+            # the answers to a Who-Is-Router-To-Network without a network number name the networks directly behind
+            # the routers of the asker's own network; nobody announces what lies further away, and whether a node asks
+            # again for a network it once asked for in vain is not something the statement rules on
+            return exp, [r for r in exp if ref.distance(sn, ref.stations[r][0]) <= 1], exp
+    return exp, exp, exp
+
+
+def judge(sysm, ref, part, sends, frame_bound=None, waves=None, cache=None):
     """sends: [(src, dest, hop or None, payload)].  -> (problems, info)"""
     problems = []
     frames = sysm.frames()
@@ -338,19 +468,25 @@ def judge(sysm, ref, part, sends, frame_bound=None):
         problems.append(("%s:no-quiescence-within-%s" % ("cycle" if part == "ring" else "tree",
                                                          "one-instant" if sysm.livelock else "the-frame-bound"),
                          {"frames": len(frames), "bound": frame_bound}))
-    forwarded, held = wire_rules(sysm, ref, frames, problems, loop_free=(part != "ring"))
     known_payloads = {}
+    originated = {j: set() for j in ref.router_app}
     for (src, dest, hop, payload) in sends:
         known_payloads[payload] = "req"
+        if src in ref.app_router:
+            originated[ref.app_router[src]].add(REQ_APDU_HDR + payload)
         for r in range(len(ref.stations)):
             known_payloads[reply_of(r, payload)] = "rpl"
+            if r in ref.app_router:
+                originated[ref.app_router[r]].add(RPL_APDU_HDR + reply_of(r, payload))
+    forwarded, held = wire_rules(sysm, ref, frames, problems, loop_free=(part != "ring"), originated=originated)
+    known_apdus = set((REQ_APDU_HDR if v == "req" else RPL_APDU_HDR) + k for k, v in known_payloads.items())
     for d in sysm.deliveries:
         if d[5] not in known_payloads:
             problems.append(("deliver:octets-handed-up-that-nobody-sent", {"station": d[0], "octets": d[5]}))
         elif (d[3], d[4]) != ((1, 8) if known_payloads[d[5]] == "req" else (1, 0)):
             problems.append(("deliver:apdu-header-altered", {"station": d[0], "type": d[3], "service": d[4]}))
     info = {"forwarded": forwarded, "held": held, "handed_to": [], "repliers": [], "copies": 0}
-    for (src, dest, hop, payload) in sends:
+    for si, (src, dest, hop, payload) in enumerate(sends):
         kind = dest[0]
         req_apdu = REQ_APDU_HDR + payload
         copies = sum(1 for f in frames if f["apdu"] == req_apdu)
@@ -363,17 +499,13 @@ def judge(sysm, ref, part, sends, frame_bound=None):
         info["repliers"].extend(sorted(set(got_at)))
         if part == "ring":
             continue
-        exp = ref.recipients(src, dest)
-        if part == "craft":
-            reach = {r: ref.hop_reach(src, r, hop) for r in exp}
-            must = [r for r in exp if reach[r] == "yes"]
-            may = [r for r in exp if reach[r] != "no"]
-        else:
-            must = may = exp
+        exp, must, may = expected(ref, part, cache, waves[si] if waves else 0, src, dest, hop)
         tn = ref.target_nets(src, dest)
+        # what a router's own application originates (a request here, a reply below) is a root cause of its own
+        mark = len(problems)
         for r in must:
             if r not in got_at:
-                problems.append(("deliver:%s:missing:%s" % (kind, loss_hint(sysm, frames, req_apdu, tn)),
+                problems.append(("deliver:%s:missing:%s" % (kind, loss_hint(sysm, frames, req_apdu, tn, ref, src, known_apdus)),
                                  {"station": r, "handed_to": got_at, "expected": exp, "originator": src}))
         for r in sorted(set(got_at)):
             if r not in may:
@@ -392,12 +524,15 @@ def judge(sysm, ref, part, sends, frame_bound=None):
                 problems.append(("source:%s:%s" % (kind, bad), {"station": d[0], "shown": d[1], "accept": ref.shown_sources(src, d[0])}))
             else:
                 good_source.add(d[0])
+        if src in ref.app_router:
+            problems[mark:] = [(ROUTER_APP + p, d) for (p, d) in problems[mark:]]
         for r in sorted(good_source):
+            mark = len(problems)
             rp = reply_of(r, payload)
             at = sorted(d[0] for d in sysm.deliveries if d[5] == rp)
             if at != [src] * got_at.count(r):
                 if not at:
-                    what = "lost:" + loss_hint(sysm, frames, RPL_APDU_HDR + rp, [ref.stations[src][0]])
+                    what = "lost:" + loss_hint(sysm, frames, RPL_APDU_HDR + rp, [ref.stations[src][0]], ref, r, known_apdus)
                 elif src not in at:
                     what = "handed-to-somebody-else"
                 elif set(at) == {src}:
@@ -410,6 +545,12 @@ def judge(sysm, ref, part, sends, frame_bound=None):
                     bad = source_problem(d[1], ref.shown_sources(r, src))
                     if bad:
                         problems.append(("source:reply:%s" % bad, {"station": src, "shown": d[1], "accept": ref.shown_sources(r, src)}))
+            if r in ref.app_router:
+                problems[mark:] = [(ROUTER_APP + p, d) for (p, d) in problems[mark:]]
+    info["reported"] = []
+    if not JUDGE_ROUTER_APP_ORIGIN:
+        info["reported"] = sorted(set(p for (p, _) in problems if p.startswith(ROUTER_APP)))
+        problems = [(p, d) for (p, d) in problems if not p.startswith(ROUTER_APP)]
     if problems and sw:
         problems = [(p + "|swallowed", dict(d, swallowed=sw)) if not p.startswith("wire:") else (p, d) for (p, d) in problems]
     info["frames"] = frames
@@ -443,11 +584,17 @@ def shard(item, deadline):
         _, _, cache, know, reply, bound, src = item
         base.update({"cache": cache, "know": know, "reply": reply})
         learned = _learn(topo, know) if cache in ("warm", "rwarm", "rcold", "nwarm") else None
+        late = cache in NetSystem.LATE
         for di, dest in enumerate(tree_scenarios(ref, know, src)):
             if time.time() > deadline:
                 acc.cap("deadline inside a (configuration, source) shard of the tree part")
                 break
-            _explore(acc, ref, dict(base, sends=[[src, list(dest), None]]), bound, deadline, 60 * nodes, learned, None, first=(di == 0))
+            if late:
+                # the same request once before the routers are there and once after their announcements have come to rest
+                case = dict(base, sends=[[src, list(dest), None], [src, list(dest), None]], waves=[0, 1])
+            else:
+                case = dict(base, sends=[[src, list(dest), None]])
+            _explore(acc, ref, case, bound, deadline, (120 if late else 60) * nodes, learned, None, first=(di == 0))
     elif part == "pair":
         _, _, cache, know, reply, bound, src = item
         base.update({"cache": cache, "know": know, "reply": reply})
@@ -500,16 +647,30 @@ def _maker(ref, case, learned, tables):
     topo = case["topo"]
     sends = _sends_of(case)
 
+    waves = case.get("waves") or [0] * len(sends)
+    late = case["cache"] in NetSystem.LATE
+
     def make():
         s = NetSystem(topo, case["cache"], case["know"], case["reply"], tables=tables, learned=learned)
         s.start()
-        for (src, dest, hop, payload) in sends:
-            if case["part"] == "craft":
-                leg0 = ref.legs(src, dest)[ref.stations[src][0]]
-                octets = F.build_npdu(REQ_APDU_HDR + payload, dnet=leg0["dnet"], dadr=leg0["dadr"], hop=hop)
-                s.inject(src, octets, None if leg0["mac_dst"] == "bcast" else leg0["mac_dst"])
-            else:
-                s.send(src, dest, payload)
+
+        def hand_down(wave):
+            for w, (src, dest, hop, payload) in zip(waves, sends):
+                if w != wave:
+                    continue
+                if case["part"] == "craft":
+                    leg0 = ref.legs(src, dest)[ref.stations[src][0]]
+                    octets = F.build_npdu(REQ_APDU_HDR + payload, dnet=leg0["dnet"], dadr=leg0["dadr"], hop=hop)
+                    s.inject(src, octets, None if leg0["mac_dst"] == "bcast" else leg0["mac_dst"])
+                else:
+                    s.send(src, dest, payload)
+
+        hand_down(0)
+        # whatever comes later happens each time the network has come to rest (run_execution pops the phases)
+        if late:
+            s.phases.append(lambda: s.routers_up(sorted(set(sn[0] for w, sn in zip(waves, sends) if w == 0))))
+        for wave in range(1, max(waves) + 1):
+            s.phases.append(lambda wave=wave: hand_down(wave))
         return s
     return make, sends
 
@@ -520,9 +681,10 @@ def _label(part, case, sends, info, frames, ref, sysm):
                                          ":table-pointed-back-through-arrival-lan" if getattr(sysm, "turned_back", 0) else "")
     kinds = "+".join(s[1][0] if s[2] is None else "%s-hop%d" % (s[1][0], s[2]) for s in sends)
     n = len(info["handed_to"])
-    if part == "tree":
-        (src, dest, hop, payload) = sends[0]
-        wire = "wire=clause6" if legs_match(frames, ref, src, dest, REQ_APDU_HDR + payload) else "wire-differs"
+    if part in ("tree", "pair") and any(s[0] in ref.app_router for s in sends):
+        wire = "from-a-routers-application"
+    elif part == "tree":
+        wire = "wire=clause6" if all(legs_match(frames, ref, s[0], s[1], REQ_APDU_HDR + s[3]) for s in sends) else "wire-differs"
     elif part == "pair":
         wire = "wire=clause6" if all(legs_match(frames, ref, s[0], s[1], REQ_APDU_HDR + s[3]) for s in sends) else "wire-differs"
     else:
@@ -542,15 +704,21 @@ def _explore(acc, ref, case0, bound, deadline, max_steps, learned, tables, first
 
     def on_exec(sysm, points, prefix):
         choices = tuple(idx for (m, idx) in points)
-        problems, info = judge(sysm, ref, part, sends, frame_bound)
+        problems, info = judge(sysm, ref, part, sends, frame_bound, case0.get("waves"), case0["cache"])
         acc.case((key0, choices))
         acc.traces += 1
         acc.transitions += len(points)
         acc.max_depth = max(acc.max_depth, len(points))
         for name, msg in sysm.swallowed():
             acc.swallowed["%s: %s" % (name, msg[:80])] += 1
-        acc.outcome(_label(part, case0, sends, info, info["frames"], ref, sysm))
+        acc.outcome(_label(part, case0, sends, info, info["frames"], ref, sysm) + (":router-app-origination-failed" if info["reported"] else ""))
+        for sig in info["reported"]:
+            acc.add_info("reported, not judged: " + sig)
         acc.add_info("%s executions" % part)
+        if ref.router_app:
+            acc.add_info("of those in topologies where a router carries an application (n=%d)" % len(ref.nets))
+        if case0["cache"] in NetSystem.LATE:
+            acc.add_info("of those with routers that come up after the first request (%s, n=%d)" % (case0["cache"], len(ref.nets)))
         acc.add_info("frames forwarded by routers", info["forwarded"])
         acc.add_info("of those released by a router after it had held them for path discovery", info["held"])
         if problems:
@@ -588,6 +756,7 @@ def run(tier, seed, deadline):
     items = plan(tier, seed)
     acc.info["shards (configuration x source)"] = len(items)
     acc.info["tree shapes"] = len(F.tree_shapes(2, 4 if tier == "quick" else 5))
+    acc.info["what a router's own application originates"] = "judged" if JUDGE_ROUTER_APP_ORIGIN else "reported, not judged"
     acc.info["configurations (part x topology x tables x population x reply)"] = len(set(
         (it[0], it[1]["label"]) + tuple(it[2:-2]) for it in items))
     run_shards(shard, items, deadline, into=acc)
@@ -615,13 +784,14 @@ def replay(case):
         max_steps = frame_bound + REPLY_ALLOWANCE
     else:
         frame_bound = None
-        max_steps = (120 if part == "pair" else 60) * nodes
+        max_steps = (120 if (part == "pair" or case["cache"] in NetSystem.LATE) else 60) * nodes
     make, sends = _maker(ref, case, learned, tables)
     sysm, points = run_execution(make, tuple(case.get("choices", ())), max_steps)
-    problems, info = judge(sysm, ref, part, sends, frame_bound)
+    problems, info = judge(sysm, ref, part, sends, frame_bound, case.get("waves"), case["cache"])
     frames = info["frames"]
-    text = "topology=%r\ntables=%s population=%s reply=%s requests=%r\nschedule=%r\nwire (%d frames)=%s\nhanded up=%r\nswallowed=%r\nproblems=%r" % (
+    text = "topology=%r\ntables=%s population=%s reply=%s requests=%r\nschedule=%r\nwire (%d frames)=%s\nhanded up=%r\nswallowed=%r\nproblems=%r%s" % (
         topo, case["cache"], case["know"], case["reply"], case["sends"],
         explorer.labels(points)[:80], len(frames), "\n   ".join([""] + [repr(_show(f)) for f in frames[:40]]),
-        sysm.deliveries[:40], sysm.swallowed()[:10], [p for p, _ in problems])
+        sysm.deliveries[:40], sysm.swallowed()[:10], [p for p, _ in problems],
+        "\nreported, not judged=%r" % (info["reported"],) if info["reported"] else "")
     return not problems, text
